@@ -185,14 +185,19 @@ def construct_case(ctx, rng):
     return True
 
 
-def resample_case(ctx, rng):
+def resample_case(ctx, rng, big=False, exact=True):
     from tangelo.toolboxes.post_processing.histogram import Histogram
-    cnt = rand_hist(rng, rng.randint(1, 6))
+    cnt = rand_hist(rng, rng.randint(1, 3 if big else 6))
     H = Histogram(dict(cnt))
-    n = rng.choice([1, 10, 257])
+    # the sampler works in chunks of 10**7 shots: totals at and around the chunk boundaries are sampled too
+    n = rng.choice([10 ** 7, 2 * 10 ** 7] if exact else [10 ** 7 + 1, 10 ** 7 - 1]) if big else rng.choice([1, 10, 257])
     np.random.seed(rng.randint(0, 2 ** 31))
-    R = H.resample(n)
-    ctx.count("resample")
+    try:
+        R = H.resample(n)
+    except Exception as e:
+        ctx.violation(f"resample({n}) of {H.counts} raises {type(e).__name__}: {e}", {"counts": cnt, "n": n})
+        return False
+    ctx.count("resample-chunked" if big else "resample")
     if R.n_shots != n or any(len(k) != H.n_qubits for k in R.counts) or not set(R.counts) <= set(H.counts):
         ctx.violation(f"resample({n}) returned {R.counts} from {H.counts}: total/keys/support wrong", {"counts": cnt, "n": n})
         return False
@@ -257,6 +262,9 @@ def run(ctx):
             return
     for i in range(ctx.n(20, 300)):
         if not resample_case(ctx, rng) or not construct_case(ctx, rng):
+            return
+    for i in range(ctx.n(2, 8)):
+        if not resample_case(ctx, rng, big=True, exact=(i % 2 == 0)):
             return
     for i in range(ctx.n(40, 800)):
         if not grouping_case(ctx, rng):
